@@ -24,6 +24,8 @@ import (
 // the handler.  See coq/theories/RunE2E.v for the formats.
 //
 // scenario : (n<kind> (step ...) n<OnSession returns its own topics>)   kind = (n<replayer kind: 0 finite/512 manual IDs, 1 valid manual, 2 finite/512 auto, 3 valid auto, 4 finite/6 manual, 5 finite/6 auto> (step ...))
+//   kind + 10*b: the client's Connection is given its buffer by Buffer(buf of capacity 200000, 0) [b=1], Buffer(nil, 200000) [b=2],
+//   Buffer(buf of capacity 4096, 200000) [b=3]; payload kinds >= 1000 (events of 66-68 KB, beyond the default limit) only then
 //   step = (n0 n<k> n<payload kind>)  publish k messages
 //        | (n1 n<c>)   cut the current/next response after c more BODY bytes read by the client
 //        | (n2 n<c>)   sever the current/next transport connection after c more RAW bytes read by the client
@@ -224,8 +226,17 @@ func (r *e2eRun) RoundTrip(req *http.Request) (*http.Response, error) {
 		a.hdr, a.hasHdr = v[0], true
 	}
 	r.mu.Lock()
-	r.attempts = append(r.attempts, a)
+	tooMany := len(r.attempts) >= 150
+	if !tooMany {
+		r.attempts = append(r.attempts, a)
+	}
 	r.mu.Unlock()
+	if tooMany {
+		// no scenario needs that many connections: the client is going round in circles; the run will be reported as
+		// not caught up, and what is on record is enough to see why
+		time.Sleep(50 * time.Millisecond)
+		return nil, errors.New("too many attempts")
+	}
 	r.curEvents.Store(0)
 	resp, err := r.inner.RoundTrip(req)
 	if err != nil {
@@ -255,10 +266,18 @@ func e2ePayload(kind, seq int) (typ string, data []string) {
 	base := e2ePayloads[kind%len(e2ePayloads)]
 	data = append([]string{}, base...)
 	if kind >= 100 { // a long event, so that cuts fall inside events and bodies span several reads
-		long := make([]byte, 3000+kind)
+		n := 3000 + kind
+		if kind >= 1000 { // beyond bufio's default token limit (64 KiB)
+			n = 66000 + 37*(kind-1000)
+		}
+		long := make([]byte, n)
+		every := 97
+		if kind >= 1000 {
+			every = 9973 // few, long lines: the specification interpreter appends line by line to the data buffer
+		}
 		for i := range long {
 			long[i] = byte('a' + (i+seq)%26)
-			if i%97 == 96 {
+			if i%every == every-1 {
 				long[i] = '\n'
 			}
 		}
@@ -270,6 +289,11 @@ func e2ePayload(kind, seq int) (typ string, data []string) {
 
 func execE2E(in val.V) val.V {
 	kind := int(in.At(0).Num())
+	// the tens digit of the kind: how the client's Connection is given its buffer (events up to 200 000 bytes must then
+	// fit, on every attempt): 0 not at all (64 KiB limit), 1 Buffer(buf with the capacity, 0), 2 Buffer(nil, max),
+	// 3 Buffer(small buf, max)
+	bufCfg := kind / 10
+	kind %= 10
 	steps := in.At(1).Items()
 	// in.At(2): OnSession returns its own topics (a freshly generated scenario has it there; a replayed line has the
 	// published list there and the flag in position 5)
@@ -346,6 +370,14 @@ func execE2E(in val.V) val.V {
 	ctx, cancelClient := context.WithCancel(context.Background())
 	req, _ := http.NewRequestWithContext(ctx, http.MethodGet, "http://pipe/", http.NoBody)
 	conn := client.NewConnection(req)
+	switch bufCfg {
+	case 1:
+		conn.Buffer(make([]byte, 0, 200000), 0)
+	case 2:
+		conn.Buffer(nil, 200000)
+	case 3:
+		conn.Buffer(make([]byte, 0, 4096), 200000)
+	}
 	var recvMu sync.Mutex
 	recvCond := sync.NewCond(&recvMu)
 	conn.SubscribeToAll(func(e sse.Event) {
@@ -369,6 +401,9 @@ func execE2E(in val.V) val.V {
 	relay := &sse.Message{}
 	publish := func(payloadKind int) {
 		seq := len(published)
+		if payloadKind >= 1000 && bufCfg == 0 {
+			payloadKind = 100 + payloadKind%50 // events beyond the default limit only for clients that raised it
+		}
 		typ, data := e2ePayload(payloadKind, seq)
 		m := &sse.Message{}
 		m.AppendData(data...)
@@ -555,6 +590,11 @@ func execE2E(in val.V) val.V {
 
 func genE2EScenario(r *rng.R, thorough bool) val.V {
 	kind := r.Intn(6)
+	bufCfg := 0
+	if r.Intn(4) == 0 {
+		bufCfg = 1 + r.Intn(3)
+	}
+	kind += 10 * bufCfg
 	nsteps := 3 + r.Intn(5)
 	if thorough {
 		nsteps = 4 + r.Intn(12)
@@ -565,7 +605,11 @@ func genE2EScenario(r *rng.R, thorough bool) val.V {
 		if r.Intn(4) == 0 {
 			pk = 100 + r.Intn(50)
 		}
-		steps = append(steps, val.L(val.N(0), val.Int(1+r.Intn(4)), val.Int(pk)))
+		k := 1 + r.Intn(4)
+		if bufCfg > 0 && r.Intn(4) == 0 {
+			pk, k = 1000+r.Intn(50), 1 // one at a time: the model spends seconds on a megabyte
+		}
+		steps = append(steps, val.L(val.N(0), val.Int(k), val.Int(pk)))
 	}
 	for i := 0; i < nsteps; i++ {
 		switch x := r.Intn(100); {
@@ -623,6 +667,20 @@ func genE2E(c *Ctx) {
 			val.L(val.Int(kind), val.L(val.L(val.N(1), val.N(7)), val.L(val.N(0), val.N(3), val.N(1)), val.L(val.N(4)), val.L(val.N(1), val.N(0)), val.L(val.N(0), val.N(2), val.N(3)))),
 			val.L(val.Int(kind), val.L(val.L(val.N(2), val.N(30)), val.L(val.N(0), val.N(2), val.N(4)), val.L(val.N(3)), val.L(val.N(0), val.N(2), val.N(120)), val.L(val.N(1), val.N(1500)), val.L(val.N(0), val.N(1), val.N(0)))),
 		)
+	}
+	// directed: a client that raised its buffer limit (each way of saying so) receives events beyond the default limit on
+	// the first attempt and on later ones, after a cut inside such an event and after a clean end of the body
+	for bufCfg := 1; bufCfg <= 3; bufCfg++ {
+		for ki, kind := range []int{0, 3, 5} {
+			if !c.Thorough && ki != bufCfg-1 {
+				continue
+			}
+			scen = append(scen, val.L(val.Int(kind+10*bufCfg), val.L(
+				val.L(val.N(0), val.N(1), val.N(1001)), val.L(val.N(4)),
+				val.L(val.N(1), val.N(30000)), val.L(val.N(0), val.N(2), val.N(1002)), val.L(val.N(4)),
+				val.L(val.N(3), val.N(1)), val.L(val.N(0), val.N(1), val.N(1003)), val.L(val.N(4)),
+				val.L(val.N(2), val.N(500)), val.L(val.N(0), val.N(1), val.N(1004)))))
+		}
 	}
 	// directed: a caught-up client reconnects (handler end) at every position of a small ring, incl. the wrap
 	for kind := 4; kind < 6; kind++ {
